@@ -19,6 +19,38 @@ def FlatD (l : List Range) : Prop := (∀ r ∈ l, Valid r) ∧ l.Pairwise (fun 
 /-- Sorted by lower bound (all that `Flatten`'s merge loop needs). -/
 def SortedB (l : List Range) : Prop := l.Pairwise (fun x y => x.b ≤ y.b)
 
+
+/-! ### Vocabulary for the callbacks of `Normalize` and `Flatten` -/
+
+/-- `q ⊆ p` (`p.Contains(q)`). -/
+def Inside (q p : Range) : Prop := p.b ≤ q.b ∧ q.e ≤ p.e
+
+/-- An `onChange(o, a, b, c)` call that splits: `o` is a current label, `a`, `b`, `c` lie inside `o`
+and cover it. (`o ∈ s` is what `assert.True(len(states) > 0)` in `mode.normalizeInputs` needs.) -/
+structure GoodCb (s : List Range) (cb : NormCb) : Prop where
+  mem : cb.o ∈ s
+  a : Inside cb.a cb.o
+  b : Inside cb.b cb.o
+  c : Inside cb.c cb.o
+  cover : ∀ k, cb.o.b ≤ k → k ≤ cb.o.e →
+    (cb.a.b ≤ k ∧ k ≤ cb.a.e) ∨ (cb.b.b ≤ k ∧ k ≤ cb.b.e) ∨ (cb.c.b ≤ k ∧ k ≤ cb.c.e)
+
+/-- Every callback of the list is a `GoodCb` for the label set the callbacks before it produced. -/
+def CbsOk : List Range → List NormCb → Prop
+  | _, [] => True
+  | s, cb :: cbs => GoodCb s cb ∧ CbsOk (applyNormCb s cb) cbs
+
+/-- Each callback leaves the denotation of the label set unchanged. -/
+def MergeOk : List Range → List FlatCb → Prop
+  | _, [] => True
+  | s, cb :: cbs => (∀ c, Den (applyFlatCb s cb) c ↔ Den s c) ∧ MergeOk (applyFlatCb s cb) cbs
+
+/-- Each callback finds both `oa` and `ob` in the label set (the two `assert.True` in
+`mode.mergeTransitions`). -/
+def MergeAsserts : List Range → List FlatCb → Prop
+  | _, [] => True
+  | s, cb :: cbs => (cb.oa ∈ s ∧ cb.ob ∈ s) ∧ MergeAsserts (applyFlatCb s cb) cbs
+
 instance (r : Range) : Decidable (Valid r) := by unfold Valid; infer_instance
 
 theorem den_nil (c : Int) : Den [] c ↔ False := by simp [Den]
